@@ -253,7 +253,9 @@ pub fn build<Data: GarnishData>(parse_root: usize, parse_tree: Vec<ParseNode>, d
 
         for end_instruction in end_instructions {
             match last_instruction.clone().and_then(|i| data.get_instruction(i)) {
-                Some(instruction) if instruction == end_instruction => {}
+                // only an unconditional transfer of control makes a second copy unreachable; a `??` that ends the
+                // right operand of `&&` / `||` on one path does not replace the normalising Tis of the other paths
+                Some(instruction) if instruction == end_instruction && matches!(end_instruction.0, Instruction::EndExpression | Instruction::JumpTo) => {}
                 _ => {
                     data.push_instruction(end_instruction.0, end_instruction.1)?;
                     instruction_metadata.push(InstructionMetadata::new(None));
